@@ -197,7 +197,8 @@ class Excel:
 
         return cls({
             'data': worksheets_data,
-            'titles': wb.sheetnames,
+            # the worksheets only, in their order: a chart sheet has a title and a tab, but no cells and no number
+            'titles': worksheets_titles,
             'suspicious_cells': suspicious_cells,
             'sheets_size': sheets_size,
         })
